@@ -35,6 +35,53 @@ _p("C06", "CrossHair/z3 symbolic execution of each iterator with lazy stop/filte
    COMMON_ASSUME + ["stop/filter are pure per node (memoised per path)"])
 
 
+MUT_OUT = ["more nodes than the bound", "hooks that themselves mutate the tree (re-entrancy)", "concurrent mutation",
+           "iterables with side effects while being consumed by children="]
+
+_p("C01", "CrossHair/z3: one symbolic call with a symbolic hook-fault schedule from every valid forest (inductive step for the C01 invariant)",
+   CH + ". Inductive step: from EVERY valid forest on N nodes (all shapes x attribute-representation variants), ONE call with arbitrary arguments and an "
+   "arbitrary fault schedule (any hook invocation, pre or post, may raise; transient <= F faults or persistent from the first one) preserves the invariant; "
+   "since every public mutation is one of the three calls this covers histories of any length over N nodes. Run for ANYTREE_ASSERTIONS=0 and 1 (separate imports).",
+   "one path = (forest, variant, call, arguments, answers of the fault flags asked by the hooks that fired); non-trivial = a hook raised or the call was refused",
+   "N<=3 nodes, children sequences up to length 3 (+non-node object, +non-iterable), <=1 transient fault or persistent, classes NodeMixin-sub and LightNodeMixin-sub, assertions off and on",
+   "N<=4 with <=1 fault or persistent; N<=3 with <=2 faults; all five node classes; TreeError-derived veto class as well",
+   MUT_OUT, COMMON_ASSUME + ["hooks only raise (Veto) or return; the fault flags are the only nondeterminism"])
+
+_p("C02", "CrossHair/z3 bounded exhaustive symbolic execution of parent=/children=/del against a functional oracle of C02's text",
+   CH + ". No faults; post-state and refusal class compared with an oracle transcribed from the statement (not from the code); constructors compared with the assignments.",
+   "one path = (forest, variant, call, arguments); non-trivial = successful call that changes the forest",
+   "N<=3 nodes with children sequences up to length 3, N=4 with sequences up to length 2; both mixin families; non-node object and non-iterable arguments; list and iterator arguments",
+   "N<=3 L<=3, N=4 with sequences up to length 4, N=5 with sequences up to length 2",
+   MUT_OUT, COMMON_ASSUME)
+
+_p("C03", "CrossHair/z3: one symbolic call with symbolic pre-hook vetoes; post-state must equal pre-state whenever the call raises",
+   CH + ". Faults on the four _pre_* hooks only (transient or persistent) and all invalid arguments. Known findings F1/F2/F3/F9 are recognised only by their "
+   "trigger family AND the exact outcome the documented protocol yields (operational model); any other deviation is a violation.",
+   "one path = (forest, variant, call, arguments, fault answers); non-trivial = the call raised",
+   "N<=3, sequences up to length 3, <=1 transient pre-hook veto or persistent, both families",
+   "N<=4 with <=1 veto or persistent; N<=3 with <=2 vetoes; TreeError-derived veto class as well",
+   MUT_OUT, COMMON_ASSUME + ["the operational model in oracle/forest.py is the documented protocol (validated: it must reproduce the real hook log exactly in C16)"])
+
+_p("C16", "CrossHair/z3: hook log of one symbolic call (with at most one symbolic post-hook fault) == protocol model, incl. observed states",
+   CH + ". Each hook records (name, node, argument, parent seen, membership/position in the parent's children seen); compared with the operational model of C16's text.",
+   "one path = (forest, variant, call, arguments, fault answers); non-trivial = at least one hook fired",
+   "N<=3, sequences up to length 3, no fault or one post-hook fault, both families",
+   "N<=4, same; plus <=1 fault on any hook",
+   MUT_OUT, COMMON_ASSUME)
+
+_p("C18", "CrossHair/z3 lock-step execution of a NodeMixin class and a LightNodeMixin(__slots__) class on the same symbolic forest, call and fault schedule",
+   CH + ". Outcome class, post-state, hook log and ~40 read-only queries per node (navigation, iterators, Walker, Resolver, RenderTree) compared index-mapped.",
+   "one path = (forest, variant, call, arguments, fault answers); non-trivial = at least one hook fired",
+   "N<=3, sequences up to length 3, <=1 fault (any hook) or persistent",
+   "N<=4, same",
+   MUT_OUT + ["non-node arguments (excluded by the statement)"], COMMON_ASSUME)
+
+
+def _mut(name, body, cfg, assertions=0, depth=4, **kw):
+    return dict(name=name, module="harness.mutate", body=body, cfg=cfg, assertions=assertions, depth=depth,
+                picked="n, parent vector (forest), op, receiver, new parent / children sequence", symbolic="touched variant, fault flags, regime", **kw)
+
+
 def obligations(prop, tier):
     q = tier == "quick"
     out = []
@@ -45,6 +92,40 @@ def obligations(prop, tier):
         for it in ("pre", "post", "level", "group", "zigzag"):
             out.append(dict(name="restrict_" + it, module="harness.iters", body="c06_body", cfg={"iter": it, "N": 4 if q else 5}, depth=4 if q else 5,
                             bounds="N<=%d" % (4 if q else 5), picked="n, parent vector, start", symbolic="maxlevel (unbounded int), stop/filter answers"))
+    elif prop == "C01":
+        for cls in (("mixin", "light") if q else ("mixin", "light", "node", "anynode", "symlink")):
+            for asrt in (0, 1):
+                out.append(_mut("step_%s_a%d" % (cls, asrt), "c01_body", {"cls": cls, "N": 3, "L": 3, "faults": "all", "F": 1}, asrt, bounds="N<=3 F<=1|persistent"))
+        if not q:
+            for cls in ("mixin", "light"):
+                out.append(_mut("step4_%s" % cls, "c01_body", {"cls": cls, "N": 4, "exactN": True, "L": 3, "faults": "all", "F": 1}, 1, depth=6, bounds="N=4 F<=1|persistent"))
+                out.append(_mut("step3f2_%s" % cls, "c01_body", {"cls": cls, "N": 3, "L": 3, "faults": "all", "F": 2}, 1, depth=5, bounds="N<=3 F<=2"))
+                out.append(_mut("step3tree_%s" % cls, "c01_body", {"cls": cls, "N": 3, "L": 3, "faults": "all", "F": 1, "veto": "tree"}, 0, bounds="N<=3 F<=1 TreeError-veto"))
+    elif prop == "C02":
+        for cls in ("mixin", "light"):
+            out.append(_mut("effect3_%s" % cls, "c02_body", {"cls": cls, "N": 3, "L": 3}, depth=4, bounds="N<=3 L<=3"))
+            out.append(_mut("effect3_%s_eq" % cls, "c02_body", {"cls": cls + "_eq", "N": 3 if q else 4, "L": 2}, depth=4, bounds="N<=%d L<=2, node class whose instances all compare equal" % (3 if q else 4)))
+            if q:
+                out.append(_mut("effect4_%s" % cls, "c02_body", {"cls": cls, "N": 4, "exactN": True, "L": 2}, depth=5, bounds="N=4 L<=2"))
+            else:
+                out.append(_mut("effect4_%s" % cls, "c02_body", {"cls": cls, "N": 4, "exactN": True, "L": 4}, depth=6, bounds="N=4 L<=4"))
+                out.append(_mut("effect5_%s" % cls, "c02_body", {"cls": cls, "N": 5, "exactN": True, "L": 2}, depth=6, bounds="N=5 L<=2"))
+    elif prop == "C03":
+        for cls in ("mixin", "light"):
+            out.append(_mut("atomic_%s" % cls, "c03_body", {"cls": cls, "N": 3, "L": 3, "faults": "pre", "F": 1}, bounds="N<=3 F<=1|persistent"))
+            if not q:
+                out.append(_mut("atomic4_%s" % cls, "c03_body", {"cls": cls, "N": 4, "exactN": True, "L": 3, "faults": "pre", "F": 1}, depth=6, bounds="N=4 F<=1|persistent"))
+                out.append(_mut("atomic3f2_%s" % cls, "c03_body", {"cls": cls, "N": 3, "L": 3, "faults": "pre", "F": 2}, depth=5, bounds="N<=3 F<=2"))
+                out.append(_mut("atomic3tree_%s" % cls, "c03_body", {"cls": cls, "N": 3, "L": 3, "faults": "pre", "F": 1, "veto": "tree"}, bounds="N<=3 TreeError-veto"))
+    elif prop == "C16":
+        for cls in ("mixin", "light"):
+            N = 3 if q else 4
+            out.append(_mut("hooks_%s" % cls, "c16_body", {"cls": cls, "N": N, "L": 3, "faults": "post", "F": 1, "persistent": False}, depth=4 if q else 6, bounds="N<=%d, <=1 post-hook fault" % N))
+            if not q:
+                out.append(_mut("hooks_anyfault_%s" % cls, "c16_body", {"cls": cls, "N": 3, "L": 3, "faults": "all", "F": 1}, depth=5, bounds="N<=3, <=1 fault any hook|persistent"))
+    elif prop == "C18":
+        N = 3 if q else 4
+        out.append(_mut("lockstep", "c18_body", {"N": N, "L": 3, "faults": "all", "F": 1}, depth=5 if q else 7, bounds="N<=%d F<=1|persistent" % N))
     return out
 
 
